@@ -344,6 +344,7 @@ class Run:
         while True:
             if pend:
                 t = pend.pop()
+                frompend = True
             elif i < n:
                 if top and i in dirstart:
                     i = self._directive(src, i)
@@ -353,6 +354,7 @@ class Run:
                 i += 1
                 if t[1] == 'nl':
                     continue
+                frompend = False
             else:
                 break
             if t[1] != 'ident':
@@ -381,6 +383,8 @@ class Run:
                 continue
             # function-like: is the next preprocessing token a '(' ?
             self.flags.add('funclike-examined')
+            if frompend and not pend:
+                self.flags.add('funclike-name-ends-replacement-list')
             if pend:
                 nx = pend[-1]
                 k = -1
